@@ -119,3 +119,23 @@ package storage
 //@   ensures [operation-error-returned] callresult(BeginTx, 1) == nil && callresult(f, 0) != nil ==> result == callresult(f, 0)
 //@   ensures [always-rolled-back] callresult(BeginTx, 1) == nil ==> called(Rollback)
 //@   ensures [begin-error] callresult(BeginTx, 1) != nil ==> result == callresult(BeginTx, 1) && !called(f)
+
+// ---------------------------------------------------------------- bolt.go (C15)
+// The indexed store decides "does this ID exist" with Exists before every create, put, replace
+// and delete: it must be true exactly when the bucket holds a value under exactly that key -- not
+// under a longer key that merely starts with it. bbolt's Bucket.Get is the definition of "holds a
+// value under exactly that key" (trusted).
+//@ func =(*go.etcd.io/bbolt.Bucket).Get
+//@   trusted
+//@   modifies nothing
+//@ func (*Bolt).bucketHelper
+//@   trusted
+//@   modifies nothing
+//@ func (*Bolt).exists
+//@   props C15
+//@   requires b != nil
+//@   modifies nothing
+//@   ensures result1 == nil
+//@   ensures callresult(bucketHelper, 0) == nil ==> !result0
+//@   ensures [exact-key] callresult(bucketHelper, 0) != nil ==> called(Get) && callrecv(Get) == callresult(bucketHelper, 0)
+//@       && str(callarg(Get, 0)) == key && result0 == (callresult(Get, 0) != nil)
